@@ -39,21 +39,27 @@ Theorem C17_pointer_unscale_exact : forall W n x,
 Proof. exact pointer_in_block_Q. Qed.
 
 (* ---------------------------------------------------------------- geometry, IEEE doubles *)
-(* C17_pointer_unscale for the code as it is would read
-     x * ax <= v < x * ax + ax   whenever scaleF (W/n) W x = Some v
-   and is false (F17): *)
-Theorem C17_pointer_refuted :
-  exists W n x v, 1 <= n /\ n <= W /\ 0 <= x < W / n /\ scaleF (W / n) W x = Some v /\
-                  ~ (x * scaleQ (W / n) W 1 <= v).
-Proof. exact pointer_refuted. Qed.
-
-(* bounded: all widths up to NS = 192, all factors, all x, both directions: defined, exact or exact-1 *)
+(* bounded: all widths up to NS = 192, all factors, all x, both directions: the double expression of
+   ScaleX/ScaleY (multiply, then divide - /repo commit c7c2b1b) is defined and exact *)
 Theorem C17_F_agrees_Q_on : forall W n,
   1 <= W <= NS -> 1 <= n <= W ->
   let w' := W / n in
-  (forall x, 0 <= x < W -> exists v, scaleF W w' x = Some v /\ scaleQ W w' x - 1 <= v <= scaleQ W w' x) /\
-  (forall x, 0 <= x < w' -> exists v, scaleF w' W x = Some v /\ scaleQ w' W x - 1 <= v <= scaleQ w' W x).
-Proof. exact scaleF_near_Q. Qed.
+  (forall x, 0 <= x < W -> scaleF W w' x = Some (scaleQ W w' x)) /\
+  (forall x, 0 <= x < w' -> scaleF w' W x = Some (scaleQ w' W x)).
+Proof. exact scaleF_is_Q. Qed.
+
+(* C17_pointer_unscale over the doubles (same bound): the mapped pointer position lies in the source
+   block of the client pixel.  (F17: refuted for the formula before c7c2b1b, see
+   ScaleFProofs.pointer_old_formula_refuted: 29 -> 57, block [58,60).) *)
+Theorem C17_pointer_unscale : forall W n x,
+  1 <= W <= NS -> 1 <= n <= W -> let w' := W / n in 0 <= x < w' ->
+  exists v, scaleF w' W x = Some v /\ x * scaleQ w' W 1 <= v < x * scaleQ w' W 1 + scaleQ w' W 1.
+Proof. exact pointer_in_block_F. Qed.
+
+Theorem C17_pointer_old_formula_refuted :
+  exists W n x v, 1 <= n /\ n <= W /\ 0 <= x < W / n /\ scaleF_old (W / n) W x = Some v /\
+                  ~ (x * scaleQ (W / n) W 1 <= v).
+Proof. exact pointer_old_formula_refuted. Qed.
 
 (* bounded: all widths up to NC = 56, all factors, all rectangles: the corrected rectangle computed in
    doubles is non-empty, inside the target and covers the exact image *)
@@ -92,7 +98,7 @@ Proof. exact update_rect_spec. Qed.
 (* ---------------------------------------------------------------- shared scaled views *)
 (* RefInv: for every size, the reference counts of the screens of that size add up to the number of
    connected clients using it, and every connected client's screen is in the chain.  Kept by join,
-   change of factor (accepted or refused, either variant of the zero-dimension check, any geometry)
+   change of factor (accepted or refused, with or without the zero-width refusal, any geometry)
    and leave. *)
 Theorem C17_refcounts_join : forall st, RefInv st -> RefInv (client_new st).
 Proof. exact refinv_client_new. Qed.
@@ -125,18 +131,22 @@ Theorem C17_factor_one : forall W H, scaled_size W H 1 = Some (W, H).
 Proof. exact factor_one. Qed.
 
 (* ---------------------------------------------------------------- F2: zero dimension *)
-Theorem C17_zero_dim_refuted :
-  exists W H n w h st st',
-    1 <= n <= 255 /\ scaled_size W H n = Some (w, h) /\ w = 0 /\ 1 <= h /\
-    scaling_setup false true (mkfmt 4 255 255 255 0 8 16) (mkgeom 0 0 0 0 0 0 0 0) (client_new st) 0 w h = Some st' /\
-    (exists cl, nth_error (clients st') 0 = Some cl /\ ckw cl = 0 /\ ckh cl = h) /\
-    split_rect_count zlib_max_rect_size w h = None /\ split_rect_count ultra_max_rect_size w h = None.
-Proof. exact zero_dim_refuted. Qed.
-
-Theorem C17_zero_dim_fixed : forall tc fmt g st k cl w h,
+(* the tree (since 8e7b6f1, zero_fix = true): a size with a zero dimension is refused, nothing changes;
+   hence no screen of the chain is ever 0 wide and the Zlib/Ultra rectangle count is defined *)
+Theorem C17_zero_dim : forall tc fmt g st k cl w h,
   nth_error (clients st) k = Some cl -> find_scaled w h st = None -> w = 0 \/ h = 0 ->
   scaling_setup true tc fmt g st k w h = Some st.
 Proof. exact zero_dim_fixed. Qed.
 
 Theorem C17_rect_count_defined : forall mx w h, 0 < mx -> 1 <= w -> exists n, split_rect_count mx w h = Some n.
 Proof. exact split_rect_count_defined. Qed.
+
+(* record of F2 - before 8e7b6f1 (zero_fix = false): factor 4 on a 3x8 screen was accepted, the client
+   was told 0x2 and the rectangle count divided by zero *)
+Theorem C17_zero_dim_old_refuted :
+  exists W H n w h st st',
+    1 <= n <= 255 /\ scaled_size W H n = Some (w, h) /\ w = 0 /\ 1 <= h /\
+    scaling_setup false true (mkfmt 4 255 255 255 0 8 16) (mkgeom 0 0 0 0 0 0 0 0) (client_new st) 0 w h = Some st' /\
+    (exists cl, nth_error (clients st') 0 = Some cl /\ ckw cl = 0 /\ ckh cl = h) /\
+    split_rect_count zlib_max_rect_size w h = None /\ split_rect_count ultra_max_rect_size w h = None.
+Proof. exact zero_dim_refuted. Qed.
